@@ -22,17 +22,19 @@ import (
 	"google.golang.org/grpc/status"
 	"google.golang.org/protobuf/proto"
 	"verif/harness/internal/gn"
+	"verif/harness/internal/vstat"
 )
 
 // ---- statistics -----------------------------------------------------------------------
 
 type stats struct {
 	writeWhileParkedBeforeSync, writerParkedAtFeedDuringWalk, convergenceChecked, syncChecked bool
-	updatesOnly, starSub, globMid, nonEmptyResult, pollRound, onceDone, invalidOrigin        bool
-	deniedSingle, failUser, starDeniedAndAllowedAfterSync, deniedFiltered                    bool
-	stalledDuringWrite, burstCoalesced, burstWithDelete, timeoutFired, shortStallSurvived    bool
-	exactChecked, removeWithSub, removeStarSurvives, resetSeen, staticRound, dynamicRound    bool
-	skippedSteps                                                                             int
+	updatesOnly, starSub, globMid, nonEmptyResult, pollRound, onceDone, invalidOrigin         bool
+	deniedSingle, failUser, starDeniedAndAllowedAfterSync, deniedFiltered                     bool
+	stalledDuringWrite, burstCoalesced, burstWithDelete, timeoutFired, shortStallSurvived     bool
+	exactChecked, removeWithSub, removeStarSurvives, resetSeen, staticRound, dynamicRound     bool
+	modelAmbiguous                                                                            bool
+	skippedSteps                                                                              int
 }
 
 func (s *stats) labels() []string {
@@ -63,6 +65,7 @@ func (s *stats) labels() []string {
 	add(s.timeoutFired, "send-timeout-fired")
 	add(s.shortStallSurvived, "short-stall-survived")
 	add(s.exactChecked, "backlog-model-compared")
+	add(s.modelAmbiguous, "backlog-model-dropped(sender-idle-multi-offer)")
 	add(s.removeWithSub, "remove-with-single-target-subscriber")
 	add(s.removeStarSurvives, "remove-with-star-subscriber")
 	add(s.resetSeen, "reset")
@@ -159,15 +162,19 @@ type subState struct {
 	ambiguous      map[string]bool // keys written by a writer in flight across registration (updates_only)
 	targetRemoved  bool            // its single target was removed while it was registered
 	removedStep    int
+	startLive      bool // the target existed when the RPC started
+	lastPollStep   int
 
 	// C08 backlog model (valid only after a drain with an empty queue)
-	modelValid bool
-	inflight   *qitem
-	pending    []*qitem
-	expect     []qdeliver // deliveries the model predicts since it became valid
-	seenOut    int        // responses already accounted for when the model became valid
-	stallStart int64      // virtual time the currently parked Send began (from the stream)
-	timedOut   bool
+	modelValid  bool
+	inflight    *qitem
+	pending     []*qitem
+	expect      []qdeliver // deliveries the model predicts since it became valid
+	seenOut     int        // responses already accounted for when the model became valid
+	idleAtStart bool       // no item was in flight when the current step began
+	offers      int        // items offered during the current step
+	stallStart  int64      // virtual time the currently parked Send began (from the stream)
+	timedOut    bool
 }
 
 type qitem struct {
@@ -193,6 +200,7 @@ type writer struct {
 	err    error
 	op     *WOp
 	step   int
+	alive  []*subState // subscriptions that were running when the operation began
 }
 
 type world struct {
@@ -214,6 +222,7 @@ type world struct {
 	known     map[string]bool            // keys (with target) currently stored, as seen through the feed
 	lastTouch map[string]int             // key -> step of the last fed change
 	gen       map[string]int             // key -> leaf generation (bumped by deletes)
+	latestVal map[string]string          // key#gen -> value most recently fed for that leaf object
 	submitted map[string]map[string]bool // key -> set of "ts|value" submitted by writers
 	parked    []*writer
 	busy      map[string]bool
@@ -229,7 +238,7 @@ func (w *world) failf(prop, format string, a ...any) {
 	panic(&failure{prop, fmt.Sprintf(format, a...)})
 }
 
-func (w *world) now() int64  { return time.Since(w.base).Nanoseconds() }
+func (w *world) now() int64   { return time.Since(w.base).Nanoseconds() }
 func (w *world) curStep() int { return w.step }
 
 func valRepr(n *pb.Notification) string {
@@ -300,6 +309,7 @@ func (w *world) tap(l *ctree.Leaf) {
 		k := gn.Key(keyOfUpdate(c, c.Update[0]))
 		w.known[k] = true
 		w.lastTouch[k] = w.step
+		w.latestVal[fmt.Sprintf("%s#%d", k, w.gen[k])] = valRepr(c)
 	}
 	w.offerToModels(c)
 }
@@ -423,12 +433,41 @@ func (w *world) buildNoti(op *WOp) *pb.Notification {
 	if op.Old {
 		ts = 5
 	}
-	n := &pb.Notification{Timestamp: ts, Prefix: gn.Path(name, op.Origin, op.Prefix, false, 0), Atomic: op.Atomic}
-	for _, u := range op.Updates {
-		n.Update = append(n.Update, &pb.Update{Path: gn.Path("", "", u.Path, false, 0), Val: u.Val.TV()})
+	origin, prefix := op.Origin, op.Prefix
+	var first []gn.Elem
+	if op.Pick > 0 && !op.Atomic {
+		w.mu.Lock()
+		var ks []string
+		for k := range w.known {
+			p := gn.Unkey(k)
+			if p[0] == name && len(p) > 1 && !isMeta(p) {
+				ks = append(ks, k)
+			}
+		}
+		w.mu.Unlock()
+		sort.Strings(ks)
+		if len(ks) > 0 {
+			leaf := gn.Unkey(ks[(op.Pick-1)%len(ks)])[1:]
+			origin, prefix = "", nil
+			for _, e := range leaf {
+				first = append(first, gn.Elem{Name: e})
+			}
+		}
 	}
-	for _, d := range op.Deletes {
-		n.Delete = append(n.Delete, gn.Path("", "", d, false, 0))
+	n := &pb.Notification{Timestamp: ts, Prefix: gn.Path(name, origin, prefix, false, 0), Atomic: op.Atomic}
+	for i, u := range op.Updates {
+		p := u.Path
+		if i == 0 && first != nil {
+			p = first
+		}
+		n.Update = append(n.Update, &pb.Update{Path: gn.Path("", "", p, false, 0), Val: u.Val.TV()})
+	}
+	for i, d := range op.Deletes {
+		p := d
+		if i == 0 && first != nil && len(op.Updates) == 0 {
+			p = first
+		}
+		n.Delete = append(n.Delete, gn.Path("", "", p, false, 0))
 	}
 	return n
 }
@@ -545,6 +584,11 @@ func (w *world) stepWriter(st Step) {
 		}
 	}
 	wr := &writer{owner: fmt.Sprintf("w:%d", w.step), target: name, op: op, step: w.step}
+	for _, s := range w.subs {
+		if s.started && !s.ended {
+			wr.alive = append(wr.alive, s)
+		}
+	}
 	if st.ParkFeed && op.Kind == "noti" {
 		w.g.arm("cache.feed", nil, wr.owner)
 	}
@@ -583,11 +627,8 @@ func (w *world) afterWriter(wr *writer) {
 		w.live[wr.target] = true
 	case "remove":
 		delete(w.live, wr.target)
-		for _, s := range w.subs {
-			if !s.started || s.ended && s.regStep < 0 {
-				continue
-			}
-			if s.regStep >= 0 && s.spec.Mode == "stream" && w.allowedTarget(s, wr.target) {
+		for _, s := range wr.alive {
+			if s.regStep >= 0 && s.spec.Mode == "stream" && !(s.patErr && !s.spec.UpdatesOnly) && w.allowedTarget(s, wr.target) {
 				if s.target == wr.target {
 					s.targetRemoved = true
 					s.removedStep = w.step
@@ -616,6 +657,7 @@ func (w *world) stepStart(st Step) {
 		s.stream.free()
 	}
 	s.snapshot = w.expected(s)
+	s.startLive = s.target == "*" || w.live[s.target]
 	s.stream.recvC <- s.req
 	owner := fmt.Sprintf("sub:%d", s.i)
 	if st.Park != "" {
@@ -707,6 +749,7 @@ func (w *world) stepRelW(st Step) {
 	i := st.N % len(w.parked)
 	wr := w.parked[i]
 	w.parked = append(w.parked[:i], w.parked[i+1:]...)
+	w.markWrites()
 	w.g.release(wr.owner)
 	synctest.Wait()
 	if w.fail != nil {
@@ -720,7 +763,19 @@ func (w *world) stepRelW(st Step) {
 	w.noteProgress()
 }
 
+// markWrites notes that the cache may change during the life of every running subscription.
+func (w *world) markWrites() {
+	for _, s := range w.subs {
+		if s.started && !s.ended {
+			s.writesDuring = true
+		}
+	}
+}
+
 func (w *world) releaseEverything() {
+	if len(w.parked) > 0 {
+		w.markWrites()
+	}
 	w.g.releaseAll()
 	synctest.Wait()
 	for _, wr := range w.parked {
@@ -789,6 +844,7 @@ func trimStack(b []byte) string {
 func run(t *testing.T, sc *Scenario, prop string) (st *stats, err error) {
 	w := &world{t: t, sc: sc, prop: prop, chk: map[string]bool{prop: true, "PANIC": true}}
 	st = &w.st
+	defer vstat.Watchdog(20*time.Second, 5*time.Second)()
 	synctest.Test(t, func(t *testing.T) {
 		defer func() {
 			if r := recover(); r != nil {
@@ -821,6 +877,7 @@ func (w *world) body() {
 	w.base = time.Now()
 	w.g = &gates{}
 	w.known, w.lastTouch, w.gen = map[string]bool{}, map[string]int{}, map[string]int{}
+	w.latestVal = map[string]string{}
 	w.submitted, w.busy, w.live = map[string]map[string]bool{}, map[string]bool{}, map[string]bool{}
 	w.ts = 1_000_000
 	var copts []cache.Option
@@ -867,6 +924,9 @@ func (w *world) body() {
 
 	for i, st := range sc.Steps {
 		w.step = i
+		for _, s := range w.subs {
+			s.idleAtStart, s.offers = s.inflight == nil, 0
+		}
 		switch st.Kind {
 		case "w":
 			w.stepWriter(st)
@@ -900,6 +960,9 @@ func (w *world) body() {
 		w.checkEnded()
 	}
 	w.step = len(sc.Steps)
+	for _, s := range w.subs {
+		s.idleAtStart, s.offers = s.inflight == nil, 0
+	}
 	w.drain()
 	w.checkAll(true)
 	w.monitorSends()
@@ -975,6 +1038,7 @@ func (w *world) stepPoll(st Step) {
 		return
 	}
 	s.polls++
+	s.lastPollStep = w.step
 	s.writesDuring = false
 	s.snapshot = w.expected(s)
 	s.stream.recvC <- &pb.SubscribeRequest{Request: &pb.SubscribeRequest_Poll{Poll: &pb.Poll{}}}
@@ -989,6 +1053,12 @@ func (w *world) stepEOF(st Step) {
 	}
 	s := w.subs[st.Sub%len(w.subs)]
 	if !s.started || s.ended || s.eofSent || s.spec.Mode != "poll" {
+		w.st.skippedSteps++
+		return
+	}
+	// the client closes its side only after it has received the sync of its last request
+	out, parked, _ := s.stream.snapshot()
+	if parked || len(out) == 0 || !out[len(out)-1].r.GetSyncResponse() || w.g.isParked(fmt.Sprintf("sub:%d", s.i)) {
 		w.st.skippedSteps++
 		return
 	}
